@@ -17,10 +17,11 @@ from pyvc.libmodels import _POW2, _REV, _BL
 
 M = 'cassandra.marshal.'
 
-LEAN_LEMMAS = ['pow2_mono']
-LEMMAS = ['lemma pow2_mono: 2**a <= 2**b for 0 <= a <= b, used at the instances named in the harness - proved in lemmas/Lemmas.lean, elaborated by lean on every run (no longer assumed); what stays assumed is that z3\'s Int and Lean\'s Nat agree on 2**k for k >= 0',
+LEAN_LEMMAS = ['pow2_mono', 'pow2_mono_strict', 'twos_complement_unique']
+LEMMAS = ['lemmas pow2_mono / pow2_mono_strict: 2**a <= 2**b for 0 <= a <= b and 2 * 2**a <= 2**b for a < b, used at the instances named in the harness - proved in lemmas/Lemmas.lean, elaborated by lean on every run (no longer assumed); what stays assumed is that z3\'s Int and Lean\'s Nat agree on 2**k for k >= 0',
           'E-HEX: int("".join("%02x" % b for b in term), 16) is the unsigned big-endian value of term (probed natively in the bounded stand-in)',
-          'uniqueness of minimal two\'s-complement representation (P1-P4 characterise BigInteger.toByteArray)']
+          'uniqueness of the minimal two\'s-complement representation (two byte strings satisfying P0-P3 for the same integer are equal, so P1-P4 characterise BigInteger.toByteArray): '
+          'twos_complement_unique in lemmas/Lemmas.lean, elaborated by lean on every run; assumed: the big-endian value LE(REV(r)) of the contracts is beVal r of the Lean file']
 
 
 def Hpow(ctx, n):
